@@ -1078,17 +1078,22 @@ def data_level(ctx, x, chain, judge_array, exact):
         if not np.array_equal(rev, d.array) and d.array.flags.writeable:
             d.array[...] = rev
             ctx.op("BinaryCIFData.serialize_after_edit")
+            # judged against a fresh object with the same (already initialised) encodings holding the edited values: what
+            # the chain does to values it cannot represent with its now fixed parameters is another matter
             try:
                 ser2 = d.serialize()
+                fresh = pdbx.BinaryCIFData(rev.copy(), chain).serialize()
             except (ValueError, OverflowError, IndexError) as ex:
                 ctx.exc(ex)
                 ctx.note("reversed_array_not_encodable_with_this_chain")
                 return
-            back2 = pdbx.BinaryCIFData.deserialize(pack(ser2))
             ctx.oracle("data_serialize_roundtrip")
-            if not np.array_equal(np.asarray(back2.array), rev):
-                ctx.fail("data_serialize_roundtrip", "array edited in place after a first serialize(): the second serialisation decodes to %s, "
-                         "the object holds %s" % (_short(np.asarray(back2.array)), _short(rev)))
+            p2, pf = pack(ser2), pack(fresh)
+            if p2 != pf:
+                back2 = pdbx.BinaryCIFData.deserialize(p2)
+                ctx.fail("data_serialize_roundtrip", "array edited in place after a first serialize(): the second serialisation differs from the "
+                         "serialisation of a new object with the same values and encodings (it decodes to %s, the object holds %s)"
+                         % (_short(np.asarray(back2.array)), _short(rev)))
 
 
 def case_chain(rng, ctx):
